@@ -431,6 +431,10 @@ func (g *syncGen) ingress(ns, name string, ts int) world.IngressSpec {
 			s.Annotations["server-alias"] = gen.Pick(r, []string{"alias.local", "www.local"})
 		}
 		if r.Chance(1, 5) {
+			// another host-level setting several hosts can claim: the domain redirected to this host
+			s.Annotations["redirect-from"] = gen.Pick(r, []string{"old.local", "www.old.local"})
+		}
+		if r.Chance(1, 5) {
 			// settings read only by the declaration that CREATES the backend object
 			world.CreateTimeAnnotations(r, &s)
 		}
